@@ -194,6 +194,9 @@ func C19(ctx *core.Ctx, r *core.Report) {
 		}
 		r.Ob("single-root", "nodeutil.WriteXMLFrag", ctx.Pos(frag.Pos()), nErr >= 2, "a fragment with no or with several top elements must be rejected: the output would not be a document with a single root")
 	}
+	xmlIO := scopeFuncs(ctx, "nodeutil", "xml_rdr.go", "xml_wtr.go", "xml_wtr2.go")
+	floatTextExact(ctx, r, xmlIO, 2)
+	definitionModuleOriginal(ctx, r, xmlIO, 8)
 }
 
 // storedToCaptured: the error is assigned to a variable of the enclosing function (closure result pattern).
@@ -216,6 +219,9 @@ func C04(ctx *core.Ctx, r *core.Report) {
 	c04ReaderExhaustive(ctx, r)
 	c04DefaultSites(ctx, r)
 	c04RowProtocol(ctx, r)
+	jsonIO := scopeFuncs(ctx, "nodeutil", "json_rdr.go", "json_wtr.go")
+	floatTextExact(ctx, r, jsonIO, 1)
+	definitionModuleOriginal(ctx, r, jsonIO, 4)
 }
 
 // c04ReaderExhaustive: formats assignable by the compiler vs cases of NewValue ∪ Conv.
